@@ -109,6 +109,85 @@ def unify(a, b, env):
     return cur
 
 
+def sto(a, b, env):
+    """True iff the equation a = b is 'subject to occurs check' in the sense of ISO 7.3.3:
+    some order of the unification steps could create a cyclic binding.  Decided order-
+    independently (and conservatively) by computing the congruence closure of the equation
+    with symbol clashes ignored and looking for a cycle in the class graph."""
+    parent = {}
+    members = {}     # root -> {(name, arity): args}
+    nodes = {}       # key -> term
+
+    def key(t):
+        if t[0] == 'v':
+            return ('v', t[1])
+        if t[0] == 'f':
+            return ('f', id(t))
+        return ('k', t)
+
+    def find(k):
+        while parent.get(k, k) != k:
+            parent[k] = parent.get(parent[k], parent[k])
+            k = parent[k]
+        return k
+
+    def add(t):
+        k = key(t)
+        if k not in nodes:
+            nodes[k] = t
+            parent[k] = k
+            members[k] = {}
+            if t[0] == 'f':
+                members[k][(t[1], len(t[2]))] = t[2]
+                for x in t[2]:
+                    add(deref(x, env))
+        return k
+
+    work = [(a, b)]
+    while work:
+        x, y = work.pop()
+        x, y = deref(x, env), deref(y, env)
+        rx, ry = find(add(x)), find(add(y))
+        if rx == ry:
+            continue
+        parent[ry] = rx
+        for sig, args in members.pop(ry).items():
+            mine = members[rx].get(sig)
+            if mine is None:
+                members[rx][sig] = args
+            else:
+                work.extend(zip(mine, args))
+    # cycle detection on the class graph
+    state = {}
+
+    def visit(r):
+        st = state.get(r)
+        if st == 1:
+            return True
+        if st == 2:
+            return False
+        state[r] = 1
+        for args in members[r].values():
+            for x in args:
+                if visit(find(key(deref(x, env)))):
+                    return True
+        state[r] = 2
+        return False
+    for k in list(nodes):
+        if visit(find(k)):
+            return True
+    return False
+
+
+def unify_nsto(a, b, env):
+    """unify, but raise Cyclic for every equation that is subject to occurs check, also
+    when this particular order of steps happens to fail (or succeed) without meeting it"""
+    r = unify(a, b, env)
+    if r is None and sto(a, b, env):
+        raise Cyclic()
+    return r
+
+
 def canon(terms, env=None):
     """canonical observation of a tuple of terms: fully dereferenced, variables numbered
     in order of first occurrence (so equality = equality up to renaming incl. aliasing)"""
@@ -298,7 +377,7 @@ class Ref:
         for fid, fact in list(self.db.get(key, ())):
             self.tick(depth)
             f2 = self.rename(fact, {})
-            e = unify(goal, f2, env) if n else env
+            e = unify_nsto(goal, f2, env) if n else env
             if e is not None:
                 yield e
         defs = self.defs.get(key)
@@ -315,7 +394,7 @@ class Ref:
                 if h2[0] == 'f' and len(h2[2]) != n:
                     # variadic definition with a fixed-arity head: no match
                     continue
-                e = unify(goal, h2, env) if n else env
+                e = unify_nsto(goal, h2, env) if n else env
                 if e is not None:
                     b2 = self.rename_body(body, m)
                     yield from self.solve(b2, e, cut, depth + 1)
@@ -325,11 +404,11 @@ class Ref:
     def builtin(self, key, args, env, depth):
         name = key[0]
         if name == '=':
-            e = unify(args[0], args[1], env)
+            e = unify_nsto(args[0], args[1], env)
             if e is not None:
                 yield e
         elif name == '\\=':
-            e = unify(args[0], args[1], env)
+            e = unify_nsto(args[0], args[1], env)
             if e is None:
                 yield env
         elif name == 'once':
@@ -347,7 +426,7 @@ class Ref:
             lst = NIL
             for t in reversed(res):
                 lst = ('f', '.', (t, lst))
-            e = unify(args[2], lst, env)
+            e = unify_nsto(args[2], lst, env)
             if e is not None:
                 yield e
         elif name in ('asserta', 'assertz'):
@@ -367,7 +446,7 @@ class Ref:
                 if not any(f == fid for f, _ in cur):
                     continue
                 f2 = self.rename(fact, {})
-                e = unify(t, f2, env)
+                e = unify_nsto(t, f2, env)
                 if e is not None:
                     self.db[k2] = [(f, x) for f, x in self.db[k2] if f != fid]
                     yield e
@@ -379,7 +458,7 @@ class Ref:
             keep = []
             for fid, fact in self.db.get(k2, ()):
                 f2 = self.rename(fact, {})
-                if unify(t, f2, env) is None:
+                if unify_nsto(t, f2, env) is None:
                     keep.append((fid, fact))
             if k2 in self.db or keep:
                 self.db[k2] = keep
